@@ -106,7 +106,7 @@ def run_walk(spec, workdir, par, tag, ops):
         pyr.walk(cb, parallel=par)
 
     if par > 1:
-        outcome, info = models.run_stage(fn, log, "walk", watchdog=90)
+        outcome, info = models.run_stage(fn, log, "walk", watchdog=90, hostile=dict(seed=spec["seed"], p=0.03, files=("pyramid.py", "par_util.py"), lo=0.001, hi=0.06, budget=1.0) if spec["seed"] % 4 == 0 else None)
     else:
         evlog.ev("stage_call")
         try:
@@ -206,7 +206,7 @@ def run_seq(spec, workdir):
             pyr.walk(cb, parallel=par)
             evlog.ev("walk_end", w=i)
 
-    outcome, info = models.run_stage(fn, log, "walk", watchdog=120)
+    outcome, info = models.run_stage(fn, log, "walk", watchdog=120, hostile=dict(seed=spec["seed"], p=0.03, files=("pyramid.py", "par_util.py"), lo=0.001, hi=0.06, budget=1.0) if spec["seed"] % 4 == 0 else None)
     recs = evlog.read(log)
     evlog.close_log()
     if outcome == "watchdog":
@@ -274,7 +274,7 @@ def run_case(spec, workdir):
         if outcome == "returned" and o2 == "returned" and s1 != s2:
             v.append(("serial-parallel-differ", "serial visited %d, parallel %d" % (sum(s2.values()), sum(s1.values()))))
     lc = models.log_counters(recs)
-    for k in ("events", "worker_timeouts", "timeouts_while_pending", "max_concurrent_callbacks"):
+    for k in ("events", "worker_timeouts", "timeouts_while_pending", "max_concurrent_callbacks", "statement_delays"):
         counters[k if k.startswith("max_") else "log_" + k] = lc.get(k, 0)
     dead_hist = collections.Counter()
     rel = 0
